@@ -67,6 +67,11 @@ def main():
             entry["sha"] = {k: hashlib.sha256(v).hexdigest()[:24] for k, v in sorted(res.items())}
             if payload.get("want_bytes") and "function" in res:
                 entry["function_hex"] = res["function"].hex()
+            if payload.get("want_bytes") and "model" in res and not oid.startswith("s_") and len(res["model"]) < 20000:
+                entry["model_hex"] = res["model"].hex()
+            obs = {k: v.decode()[:300] for k, v in res.items() if k.startswith(("eager_", "proto_", "obs_"))}
+            if obs:
+                entry["obs"] = obs
             if "flag" in res:
                 entry["flag"] = res["flag"].decode()
             if "model" in res and not oid.startswith("s_"):
